@@ -131,11 +131,12 @@ type Machine struct {
 	preempts     int
 	atomicVals   map[*Value]*Value
 	conds        map[*Value]*condState
-	lazyBoot     bool   // this machine runs a package initialiser (lazyInit): no nested lazy initialisation
-	raceExempt   int    // >0: accesses are not recorded by the race analysis (model-internal registries)
-	baseMaxLoop  int    // the configured loop bound (verifMaxLoop lowers cfg.MaxLoop for one path)
-	fsFault      bool   // every open fails with EMFILE (verifFsFault)
-	advPath      string // path the environment may create (verifFsAdversary)
+	lazyBoot     bool               // this machine runs a package initialiser (lazyInit): no nested lazy initialisation
+	raceExempt   int                // >0: accesses are not recorded by the race analysis (model-internal registries)
+	baseMaxLoop  int                // the configured loop bound (verifMaxLoop lowers cfg.MaxLoop for one path)
+	digests      map[*Value][]*Term // bytes written to streaming xxhash digests
+	fsFault      bool               // every open fails with EMFILE (verifFsFault)
+	advPath      string             // path the environment may create (verifFsAdversary)
 	advActed     bool
 	advGen       int
 	siteCache    map[token.Pos]string
@@ -166,7 +167,7 @@ type Machine struct {
 	outOfBound    int
 	tempSeq       int
 	openFiles     map[*Value]string
-	csvReaders map[*Value]*csvReader
+	csvReaders    map[*Value]*csvReader
 	csvFiles      map[string]*csvFile
 	pools         map[*Value][]Value
 	syncMaps      map[*Value]*Map
@@ -819,6 +820,7 @@ func (m *Machine) resetPath(prefix []int32) {
 	m.advPath, m.advActed, m.advGen = "", false, 0
 	m.atomicVals, m.conds = nil, nil
 	m.fsFault = false
+	m.digests = nil
 	if m.baseMaxLoop == 0 {
 		m.baseMaxLoop = m.cfg.MaxLoop
 	}
